@@ -6,8 +6,9 @@ import ast, os, sys, json, multiprocessing as mp
 from .core import Tree, REPO, AnalysisError
 from .selftest import swap_if_else
 
-ALL_KINDS = ["rename", "swapif", "log", "augassign", "swapeq", "range0", "temp", "swapand", "elsereturn", "noop", "cmpflip", "noteq", "nestif", "guardcont"]
-EXTRA_KINDS = ["nameconst", "lenzero", "ifexp", "tupleassign"]  # hand tool only until silent
+ALL_KINDS = ["rename", "swapif", "log", "augassign", "swapeq", "range0", "temp", "swapand", "elsereturn", "noop", "cmpflip", "noteq", "nestif", "guardcont",
+             "nameconst", "lenzero", "ifexp", "tupleassign", "swapstmt", "returnelse", "kwargs"]
+EXTRA_KINDS = []  # hand tool only until silent
 KINDS = list(ALL_KINDS)
 def functions(mod):
     for n in ast.walk(mod):
@@ -111,6 +112,7 @@ def gen_variants(files=None, kinds=None):
                         k += 1
             if "nameconst" in KINDS:
                 k = 0
+                _mark_patterns(fn)
                 for n in ast.walk(fn):
                     if _nameable(n):
                         out.append((m.relpath, "nameconst", fi, k))
@@ -137,11 +139,89 @@ def gen_variants(files=None, kinds=None):
                                 if _tuple_able(lst[i], lst[i + 1]):
                                     out.append((m.relpath, "tupleassign", fi, k))
                                     k += 1
+            if "swapstmt" in KINDS:
+                k = 0
+                for p in ast.walk(fn):
+                    for fld in ("body", "orelse", "finalbody"):
+                        lst = getattr(p, fld, None)
+                        if isinstance(lst, list):
+                            for i in range(len(lst) - 1):
+                                if _swappable(lst[i], lst[i + 1]):
+                                    out.append((m.relpath, "swapstmt", fi, k))
+                                    k += 1
+            if "returnelse" in KINDS:
+                k = 0
+                for p in ast.walk(fn):
+                    for fld in ("body", "orelse", "finalbody"):
+                        lst = getattr(p, fld, None)
+                        if isinstance(lst, list):
+                            for i in range(len(lst) - 1):
+                                if _returnelse_able(lst[i]):
+                                    out.append((m.relpath, "returnelse", fi, k))
+                                    k += 1
+            if "kwargs" in KINDS:
+                k = 0
+                for n in ast.walk(fn):
+                    if isinstance(n, ast.Call) and _kwargs_able(n, t, m):
+                        out.append((m.relpath, "kwargs", fi, k))
+                        k += 1
     return out
 
 
+def _swappable(a, b):
+    if not (isinstance(a, ast.Assign) and isinstance(b, ast.Assign) and len(a.targets) == 1 and len(b.targets) == 1):
+        return False
+    ta, tb = a.targets[0], b.targets[0]
+    if not (isinstance(ta, ast.Name) and isinstance(tb, ast.Name)) or ta.id == tb.id:
+        return False
+    if any(isinstance(x, (ast.Call, ast.Await, ast.NamedExpr, ast.Subscript)) for v in (a.value, b.value) for x in ast.walk(v)):
+        return False
+    na = {x.id for x in ast.walk(a.value) if isinstance(x, ast.Name)}
+    nb = {x.id for x in ast.walk(b.value) if isinstance(x, ast.Name)}
+    return ta.id not in nb and tb.id not in na
+
+
+def _returnelse_able(n):
+    return isinstance(n, ast.If) and not n.orelse and n.body and isinstance(n.body[-1], (ast.Return, ast.Continue, ast.Raise))
+
+
+_PARAMS = {}
+
+
+def _kwargs_able(call, tree, mod):
+    """positional call of a repo function / constructor whose parameter names are known: resolved by simple name (module function or class __init__)."""
+    if call.keywords or not call.args or any(isinstance(a, ast.Starred) for a in call.args):
+        return False
+    name = call.func.id if isinstance(call.func, ast.Name) else (call.func.attr if isinstance(call.func, ast.Attribute) else None)
+    if name is None:
+        return False
+    if not _PARAMS:
+        for mm in tree.modules.values():
+            for qn, f in mm.functions.items():
+                ps = [a.arg for a in f.node.args.args]
+                if f.node.args.vararg or f.node.args.posonlyargs:
+                    continue
+                short = qn.split(".")[-1]
+                key = qn.split(".")[0] if short == "__init__" else short
+                if short == "__init__" or (ps and ps[0] == "self"):
+                    ps = ps[1:]
+                _PARAMS.setdefault(key, []).append(ps)
+    cands = _PARAMS.get(name)
+    if not cands or len({tuple(c) for c in cands}) != 1:
+        return False
+    return len(call.args) <= len(cands[0]) and len(call.args) >= 2
+
+
+def _mark_patterns(fn):
+    for n in ast.walk(fn):
+        if isinstance(n, ast.match_case):
+            for x in ast.walk(n.pattern):
+                x._in_pattern = True
+
+
 def _nameable(n):
-    return isinstance(n, ast.Constant) and ((isinstance(n.value, int) and not isinstance(n.value, bool) and n.value > 2) or (isinstance(n.value, bytes) and len(n.value) >= 1))
+    # (a constant inside a `case` pattern cannot be named: a bare name there is a capture pattern)
+    return isinstance(n, ast.Constant) and not getattr(n, "_in_pattern", False) and ((isinstance(n.value, int) and not isinstance(n.value, bool) and n.value > 2) or (isinstance(n.value, bytes) and len(n.value) >= 1))
 
 
 def _lenzero(t):
@@ -339,6 +419,7 @@ def apply(v):
                 k += 1
     elif kind == "nameconst":
         k = 0
+        _mark_patterns(fn)
         for n in ast.walk(fn):
             if _nameable(n):
                 if k == arg:
@@ -381,6 +462,49 @@ def apply(v):
                                 done = True
                                 break
                             k += 1
+    elif kind == "swapstmt":
+        k = 0
+        done = False
+        for p in ast.walk(fn):
+            for fld in ("body", "orelse", "finalbody"):
+                lst = getattr(p, fld, None)
+                if isinstance(lst, list) and not done:
+                    for i in range(len(lst) - 1):
+                        if _swappable(lst[i], lst[i + 1]):
+                            if k == arg:
+                                lst[i], lst[i + 1] = lst[i + 1], lst[i]
+                                done = True
+                                break
+                            k += 1
+    elif kind == "returnelse":
+        k = 0
+        done = False
+        for p in ast.walk(fn):
+            for fld in ("body", "orelse", "finalbody"):
+                lst = getattr(p, fld, None)
+                if isinstance(lst, list) and not done:
+                    for i in range(len(lst) - 1):
+                        if _returnelse_able(lst[i]):
+                            if k == arg:
+                                lst[i].orelse = lst[i + 1:]
+                                del lst[i + 1:]
+                                done = True
+                                break
+                            k += 1
+    elif kind == "kwargs":
+        k = 0
+        t = Tree()
+        m = next(mm for mm in t.modules.values() if mm.relpath == rel)
+        for n in ast.walk(fn):
+            if isinstance(n, ast.Call) and _kwargs_able(n, t, m):
+                if k == arg:
+                    name = n.func.id if isinstance(n.func, ast.Name) else n.func.attr
+                    ps = _PARAMS[name][0]
+                    # keep the first argument positional, pass the others by keyword
+                    n.keywords = [ast.keyword(arg=ps[i], value=a) for i, a in enumerate(n.args) if i >= 1]
+                    n.args = n.args[:1]
+                    break
+                k += 1
     ast.fix_missing_locations(mod)
     return ast.unparse(mod), fn.name
 
